@@ -161,6 +161,13 @@ func init() {
 			for _, d := range dsts {
 				cases = append(cases, apiCase("C02", "kept-vs-shares", []string{sendFixed("USD", "{ @a @b }", d)}, nil))
 			}
+			// the same account several times with different limits, two destinations (a negative
+			// or zero share cannot hide by merging into the previous posting)
+			for _, s := range []string{"{ @a allowing overdraft up to %K @a @world }", "{ @a allowing overdraft up to %K @a allowing overdraft up to %K @b }",
+				"{ max %C from @a @a allowing overdraft up to %K @a }", "{ @a @a allowing overdraft up to %K @world }"} {
+				cases = append(cases, apiCase("C02", "repeated-account", []string{sendFixed("USD", s, "{ max %C to @d remaining to @e }")}, nil))
+				cases = append(cases, apiCase("C02", "repeated-account", []string{sendFixed("USD", s, "{ 1/2 to @d 1/2 to @e }")}, nil))
+			}
 			cases = append(cases, apiCase("C02", "two-assets", []string{sendFixed("USD", "@a", "@d"), "send [EUR *] (\n source = @a\n destination = @e\n)"}, nil))
 			return cases
 		},
@@ -247,6 +254,9 @@ func init() {
 			cases = append(cases, apiCase("C08", "save-other-asset", []string{"save [EUR *] from @a", sends[0]}, nil))
 			cases = append(cases, apiCase("C08", "save-only", []string{"save %N from @a"}, nil))
 			cases = append(cases, apiCase("C08", "send;save;send", []string{sendFixed("USD", "@world", "@a"), "save %N from @a", sends[0]}, nil))
+			// a reservation larger than the balance must not swallow money received later
+			cases = append(cases, apiCase("C08", "save;credit;spend", []string{"save %N from @a", sendFixed("USD", "@world", "@a"), sends[0]}, nil))
+			cases = append(cases, apiCase("C08", "save;credit;spend", []string{"save [USD *] from @a", sendFixed("USD", "@b", "@a"), sends[2]}, nil))
 			if tier == "thorough" {
 				for _, s1 := range saves {
 					for _, s2 := range saves {
